@@ -1301,7 +1301,9 @@ def _vec_retain(ctx, p, clos):
         r = call_under(ctx, g, clos, [pv])
         if r is None:
             continue
-        out.append((b_and(g, r), v))
+        keep = b_and(g, r)
+        if keep is not False:
+            out.append((keep, v))
     ctx.write(p, Seq(tuple(out)))
     return UNIT
 
